@@ -7,6 +7,7 @@ CONSTANTS
   DescCap = 64
   MaxParam = 3
   NGuard = 16
+  NAttrName = 6
   NObjHash = 11
   HashHash = {8, 9, 10}
   BigLens = {10000, 100000, 1000000}
